@@ -20,7 +20,7 @@ RULE = (
     "alpha-renamed to match (through rename_inputs/output names, function parameters untouched); optional inner select. Flat and nested "
     "variants run on SyncRunner and on AsyncRunner under SimLoop (delays, max_concurrency: inner nodes compete for the same permits). "
     "Non-trivial = the cut crosses >=1 data edge or the group has a default/bound input; distinct = digest of (program shape, cut, renames, inputs)."
-    ' Also varied: the wrapper object is introspected / placed in a throw-away graph before it is renamed (object reuse), and the inner graph binds another value than the enclosing graph for the same name (the enclosing binding must win, as in the flat graph).'
+    ' Also varied: the wrapper object is introspected / placed in a throw-away graph before it is renamed (object reuse), and the inner graph binds another value than the enclosing graph for the same name (the enclosing binding must win, as in the flat graph); the nested variant built with explicit edges= (one declaration per node pair or one per value) against the name-inferred flat graph; outputs whose value is None/falsy.'
 )
 ASSUMPTIONS = [
     "a nested variant the constructor rejects is discarded and counted (not judged): C19 owns constructor verdicts",
@@ -87,7 +87,9 @@ def gen_case(rng: random.Random, tier: str) -> dict:
         if len(cur_nodes) <= 1:
             break
     ren = {"style": rng.choice(["none", "none", "fresh", "chain", "swap", "out", "mixed", "out_chain", "rename_then_swap"]), "seed": rng.randrange(1 << 30)}
-    return {"graph": g, "inputs": inp, "cuts": cuts, "rename": ren, "inner_select": rng.random() < 0.25, "bind_inner": rng.random() < 0.7,
+    if rng.random() < 0.3:
+        gen.add_falsy_consts(rng, g, 0.2)  # outputs whose VALUE is None / 0 / "" / []: produced, not missing (also across an inner select)
+    return {"nested_edges": rng.choice([False, False, False, True, "split"]), "graph": g, "inputs": inp, "cuts": cuts, "rename": ren, "inner_select": rng.random() < 0.25, "bind_inner": rng.random() < 0.7,
             "touch": rng.choice([[], [], ["spec"], ["graph"], ["spec", "graph"]]), "bind_conflict": rng.random() < 0.3, "async": [gen.gen_async_cfg(rng, allow_hold=True) for _ in range(2)]}
 
 
@@ -226,6 +228,10 @@ def run_case(doc: dict) -> dict:
     try:
         nspec, rho, info, outer_bind = build_nested(doc)
         _strip(nspec)
+        if doc.get("nested_edges"):
+            # the NESTED variant spells its topology out with explicit edges= (one declaration per pair, or one per value: after
+            # wrapping, several values travel between the same two nodes); the flat variant keeps name inference
+            nspec = gen.with_api(nspec, {"explicit_edges": doc["nested_edges"]})
     except Exception as e:  # noqa: BLE001 - generator bug must surface as harness error
         raise
     box: dict = {}
